@@ -305,6 +305,54 @@ def stepSeq (st : SeqState) (op : String) (ins impl : List String) : Option (Seq
     let (t, ok) := stepTable st.tbl .bad
     let st' : SeqState := ⟨t, Spec.editRaws st.rs .bad, st.rules⟩
     pure (st', judgeTable st' "bad" (some (if ok then 200 else 400)) impl)
+  | "C06.race", [td, ta, d, a, k, ip, hostS, qtS, _iters] =>
+    -- lookups racing the update handler, which flips one entry between its old
+    -- and new value an odd number of times:  =>  status  m result×m  DUMP
+    -- (result = hex of the TAB-joined PR CH observation)
+    let tdom ← hexDecode td
+    let tans ← hexDecode ta
+    let r ← parseRaw1 d a k ip
+    let host ← hexDecode hostS
+    let qt ← parseNat qtS
+    let tA := st.tbl
+    let (tB, ok) := stepTable tA (.upd tdom tans r)
+    let rsB := Spec.editRaws st.rs (.upd tdom tans r)
+    -- the generator guarantees that flipping back restores the old table
+    let nu := normalize r
+    let back : Raw := ⟨tdom, tans, (tA.find? (sameKey tdom tans)).bind (fun e => (reraw e).parsed)⟩
+    if ok && (stepTable tB (.upd nu.domain nu.answer back)).1 != tA then none
+    let st' : SeqState := ⟨tB, rsB, st.rules⟩
+    match impl with
+    | stS :: mS :: rest =>
+      let status ← parseNat stS
+      let m ← parseNat mS
+      let (resS, dumpS) ← takeN m rest
+      let results ← resS.mapM (fun x => do
+        let bs ← hexDecode x
+        let fields := splitTab (String.ofList (bs.map Char.ofNat))
+        let (iPr, rest2) ← parseOut fields
+        let (iCh, rest3) ← parseOut rest2
+        if rest3.isEmpty then pure (iPr, iCh) else none)
+      let specA := prepare st.rs
+      let specB := prepare rsB
+      let lh := Bytes.lower host
+      let agreeRes := results.all (fun (iPr, iCh) =>
+        (explains tA host qt iPr || explains tB host qt iPr) &&
+        (checkAgree tA host qt iCh || checkAgree tB host qt iCh))
+      let specRes := results.all (fun (iPr, iCh) =>
+        (Spec.specOK specA lh qt iPr || Spec.specOK specB lh qt iPr) &&
+        (Spec.specOK specA lh qt iCh || Spec.specOK specB lh qt iCh))
+      let (dump, restD) ← parseDump dumpS
+      if !restD.isEmpty then none
+      let wantStatus := if ok then 200 else 400
+      let agree := agreeRes && status == wantStatus && dump == tB.map Spec.rowOf
+      let spec :=
+        if !specRes then some "C06.answer-from-no-table-state"
+        else if !Spec.tableOK rsB dump then some "C06.table-changed-by-race"
+        else none
+      pure (st', verdict agree spec ("race\t" ++ toString results.length ++ "\t" ++ showDump tB))
+    | "PANIC" :: _ => pure (st', verdict false (some "C06.panic-race") "race")
+    | _ => none
   | "C06.list", [] =>
     let modelS := "table-list\t" ++ toString st.tbl.length
     match impl with
